@@ -41,7 +41,10 @@ def cases(ctx):
         shadow = [ri.AppState(u) for u in units]  # generation-time reference states (guided generator)
         for _ in range(rng.randrange(1, 6)):
             app = rng.randrange(napps)
-            if rng.random() < 0.35:
+            r = rng.random()
+            if r < 0.06:
+                prog = gc.gen_return_twice(rng)
+            elif r < 0.38:
                 prog = gc.gen_program(rng, units[app], max_len=rng.choice([12, 20, 30]), first=app not in seen)
             else:
                 prog = gc.gen_program_guided(rng, shadow[app], rng.choice([8, 14, 22, 30]))
